@@ -1196,6 +1196,69 @@ package decimal
 //@   hint[after:cmp#1] V_bounds(v, 0, len(v))
 //@   hint[after:cmp#1] len(u) > len(v) ==> P_mono(len(v), len(u)-1)
 
+// Schoolbook multiplication: the building block below the Karatsuba threshold (and of every
+// Karatsuba leaf).  z[0:m+n] = x*y for x of m and y of n words.
+//@ func decBasicMul(z, x, y dec)
+//@   requires[len]     len(z) >= len(x) + len(y) && len(x) <= 100000000 && len(y) <= 100000000
+//@   requires[words]   wordsok(x) && wordsok(y)
+//@   requires[apart]   z.arr != x.arr && z.arr != y.arr
+//@   modifies mem(z[:len(x)+len(y)])
+//@   ensures[words,C06,C08] wordsok(z[:len(x)+len(y)])
+//@   ensures[value,C06,C01] V(z[:len(x)+len(y)]) == V(x)*V(y)
+//@   ensures[operands,C09] samewords(x, old(x)) && samewords(y, old(y))
+//@   loop 1 invariant[range] 0 - 1 <= rangeindex && rangeindex < len(y)
+//@   loop 1 invariant[words] wordsok(z[:len(x)+len(y)])
+//@   loop 1 invariant[value] V(z[:len(x)+rangeindex+1]) == V(x)*V(y[:rangeindex+1])
+//@   loop 1 invariant[zeros] forall k in len(x)+rangeindex+1..len(x)+len(y) :: z[k] == 0
+//@   loop 1 modifies mem(z[:len(x)+len(y)])
+//@   loop 1 hint[entry] V_zero(z, 0, len(x))
+//@   loop 1 hint[head] V_split(z, 0, rangeindex + 1, rangeindex + 1 + len(x))
+//@   hint[after:addMul10VVW#1] V_split(z, 0, rangeindex, rangeindex + len(x))
+//@   hint[after:addMul10VVW#1] Vdef(z, 0, len(x) + rangeindex)
+//@   hint[after:addMul10VVW#1] Vdef(y, 0, rangeindex)
+//@   hint[after:addMul10VVW#1] P_add(len(x), rangeindex)
+//@   hint[after:addMul10VVW#1] mul_eq(V(z[rangeindex:rangeindex+len(x)]) + result*P(len(x)), pre(V(z[rangeindex:rangeindex+len(x)])) + V(x)*y[rangeindex], P(rangeindex))
+//@   hint[after:addMul10VVW#1] mul_eq(P(len(x) + rangeindex), P(len(x))*P(rangeindex), result)
+//@   hint[after:addMul10VVW#1] mul_eq(V(y[:rangeindex+1]), V(y[:rangeindex]) + y[rangeindex]*P(rangeindex), V(x))
+//@   loop 1 hint Vdef(z, 0, len(x) + rangeindex)
+//@   loop 1 hint Vdef(y, 0, rangeindex)
+
+// decAddAt: z += x*B^i, for a sum that fits in z (what the Karatsuba composition relies on).
+//@ func decAddAt(z, x dec, i int)
+//@   nomerge
+//@   requires[len]     0 <= i && i + len(x) <= len(z) && len(z) <= 1000000000
+//@   requires[words]   wordsok(z) && wordsok(x)
+//@   requires[apart]   z.arr != x.arr
+//@   requires[fits]    V(z) + V(x)*P(i) < P(len(z))
+//@   modifies mem(z)
+//@   ensures[words,C06,C08] wordsok(z)
+//@   ensures[value,C06] V(z) == old(V(z)) + V(x)*P(i)
+//@   ensures[operand,C09] samewords(x, old(x))
+//@   hint[entry] V_split(z, 0, i, len(z))
+//@   hint[entry] V_split(z, i, i + len(x), len(z))
+//@   hint[entry] V_nonneg(z, 0, i)
+//@   hint[entry] V_nonneg(z, i + len(x), len(z))
+//@   hint[entry] P_add(i, len(x))
+//@   hint[entry] P_add(i + len(x), len(z) - i - len(x))
+//@   hint[after:add10VV#1] V_split(z, 0, i, len(z))
+//@   hint[after:add10VV#1] V_split(z, i, i + len(x), len(z))
+//@   hint[after:add10VV#1] V_bounds(z, i + len(x), len(z))
+//@   hint[after:add10VV#1] mul_eq(V(z[i:i+len(x)]) + result*P(len(x)), pre(V(z[i:i+len(x)])) + V(x), P(i))
+//@   hint[after:add10VV#1] mul_eq(P(i + len(x)), P(i)*P(len(x)), result)
+//@   hint[after:add10VV#1] mul_eq(P(i + len(x)), P(i)*P(len(x)), V(z[i+len(x):]))
+//@   hint[after:add10VV#1] mul_eq(P(len(z)), P(i + len(x))*P(len(z) - i - len(x)), result)
+//@   hint[after:add10VV#1] mul_mono(V(z[i+len(x):]) + 1, P(len(z) - i - len(x)), P(i + len(x)))
+//@   hint[after:add10VV#1] V_split(z, 0, i, i + len(x))
+//@   hint[after:add10VV#1] V_nonneg(z, 0, len(z))
+//@   hint[after:add10VV#1] V_nonneg(z, 0, i)
+//@   hint[after:add10VV#1] V_nonneg(z, i, i + len(x))
+//@   hint[after:add10VV#1] result >= 1 ==> mul_mono(1, result, P(i + len(x)))
+//@   hint[after:add10VW#1] V_split(z, 0, i + len(x), len(z))
+//@   hint[after:add10VW#1] V_nonneg(z, 0, len(z))
+//@   hint[after:add10VW#1] mul_eq(P(len(z)), P(i + len(x))*P(len(z) - i - len(x)), result)
+//@   hint[after:add10VW#1] result >= 1 ==> mul_mono(1, result, P(len(z)))
+//@   hint[after:add10VW#1] mul_eq(V(z[i+len(x):]) + result*P(len(z) - i - len(x)), pre(V(z[i+len(x):])) + 1, P(i + len(x)))
+
 // divLarge (Knuth D / recursive division behind a normalisation step) is the part of the
 // division that stays assumed; dec.div's dispatch, the short-dividend and the one-word
 // divisor cases are verified above.
